@@ -76,14 +76,16 @@ Lemma or3_nonnull a b : is_null a = false -> is_null b = false -> or3 a b = VBoo
 Proof. intros Ha Hb. unfold or3. rewrite Ha, Hb. simpl. destruct (truth a), (truth b); reflexivity. Qed.
 Lemma pl_cmp_nonnull c a b : is_null a = false -> is_null b = false -> pl_cmp c a b = compare_vals fl_pandas c a b.
 Proof. destruct a, b; simpl; intros; try discriminate; reflexivity. Qed.
-Lemma ignore_null2_nonnull f a b : is_null a = false -> is_null b = false -> ignore_null2 f a b = num2 f a b.
-Proof. intros Ha Hb. unfold ignore_null2. rewrite Ha, Hb. reflexivity. Qed.
+(* maximum / minimum after 73dee51: missing if any operand is missing, else the horizontal maximum / minimum *)
+Lemma missing_if_any_eq f a b :
+  pl_when (or3 (VBool (is_null a)) (VBool (is_null b))) VNull (ignore_null2 f a b) = num2 f a b.
+Proof. destruct a as [|[]| | |], b as [|[]| | |]; reflexivity. Qed.
 Lemma is_bad_as_or v : or3 (or3 (VBool (is_null v)) (pl_nan_like v)) (pl_nan_like v) = VBool (is_null v).
 Proof. destruct v; reflexivity. Qed.
 
 (* ------------------------------------------------------------------ the expression translation is sound *)
 Definition nulls_ok3 (cs : list string) (r : list val) (e : expr) : Prop :=
-  expr_nulls_ok is_cmp_op cs r e = true /\ expr_nulls_ok is_logic_op cs r e = true /\ expr_nulls_ok is_minmax_op cs r e = true.
+  expr_nulls_ok is_cmp_op cs r e = true /\ expr_nulls_ok is_logic_op cs r e = true.
 
 Definition expr_agrees (e : expr) : Prop :=
   exists x, (forall ext, tr_expr ext e = Ok x) /\
@@ -91,20 +93,19 @@ Definition expr_agrees (e : expr) : Prop :=
 
 Lemma nulls_ok3_args cs r op args : nulls_ok3 cs r (EOp op args) -> Forall (nulls_ok3 cs r) args.
 Proof.
-  unfold nulls_ok3. rewrite !expr_nulls_ok_op. intros [H1 [H2 H3]].
-  apply andb_true_iff in H1, H2, H3. destruct H1 as [H1 _], H2 as [H2 _], H3 as [H3 _].
-  rewrite forallb_forall in H1, H2, H3. apply Forall_forall. intros a I. auto.
+  unfold nulls_ok3. rewrite !expr_nulls_ok_op. intros [H1 H2].
+  apply andb_true_iff in H1, H2. destruct H1 as [H1 _], H2 as [H2 _].
+  rewrite forallb_forall in H1, H2. apply Forall_forall. intros a I. auto.
 Qed.
 
 Lemma nulls_ok3_sens cs r op args : nulls_ok3 cs r (EOp op args) ->
-  (is_cmp_op op || is_logic_op op || is_minmax_op op = true) -> Forall (fun a => is_null (eval_expr fl_pandas cs r a) = false) args.
+  (is_cmp_op op || is_logic_op op = true) -> Forall (fun a => is_null (eval_expr fl_pandas cs r a) = false) args.
 Proof.
-  unfold nulls_ok3. rewrite !expr_nulls_ok_op. intros [H1 [H2 H3]] S.
-  apply andb_true_iff in H1, H2, H3. destruct H1 as [_ H1], H2 as [_ H2], H3 as [_ H3].
+  unfold nulls_ok3. rewrite !expr_nulls_ok_op. intros [H1 H2] S.
+  apply andb_true_iff in H1, H2. destruct H1 as [_ H1], H2 as [_ H2].
   apply Forall_forall. intros a I. apply negb_true_iff.
   destruct (is_cmp_op op); [rewrite forallb_forall in H1; auto|].
-  destruct (is_logic_op op); [rewrite forallb_forall in H2; auto|].
-  destruct (is_minmax_op op); [rewrite forallb_forall in H3; auto|]. discriminate.
+  destruct (is_logic_op op); [rewrite forallb_forall in H2; auto|]. discriminate.
 Qed.
 
 Ltac split_mem H :=
@@ -154,13 +155,13 @@ Proof.
            | |- expr_agrees (EOp ?o _) =>
                eexists; split; [intros ext; rewrite tr_expr_op; cbn [tr_list]; rewrite T, T0; cbn; reflexivity|];
                intros cs rs i G; pose proof (nulls_ok3_args _ _ _ _ G) as GA; inv_forall;
-               rewrite eval_expr_op; cbn [map plx_at]; rewrite (E cs rs i), (E0 cs rs i) by assumption;
+               rewrite eval_expr_op; cbn [map plx_at missing_if_any_missing any_null fold_left]; rewrite !(E cs rs i), !(E0 cs rs i) by assumption;
                try reflexivity;
+               try (cbn [scalar_op f_minmax_ignore_null fl_pandas]; apply missing_if_any_eq);
                try (pose proof (nulls_ok3_sens _ _ _ _ G eq_refl) as NN; inv_forall;
                     first [ apply pl_cmp_nonnull; assumption
                           | cbn [scalar_op f_logic3 fl_pandas]; apply and3_nonnull; assumption
-                          | cbn [scalar_op f_logic3 fl_pandas]; apply or3_nonnull; assumption
-                          | cbn [scalar_op f_minmax_ignore_null fl_pandas]; apply ignore_null2_nonnull; assumption ])
+                          | cbn [scalar_op f_logic3 fl_pandas]; apply or3_nonnull; assumption ])
            end.
     + (* if_else *)
       inv_forall. use_agrees. split_mem V1; try discriminate.
